@@ -31,7 +31,11 @@ pub fn write_module(
     for segment in key.iter() {
         path.push(segment.as_str());
     }
-    path.set_extension("rs");
+    // Append the extension instead of `set_extension`, which would replace everything after the
+    // last dot of a module name such as `a.b` (and make `a.b` and `a` write the same file).
+    if let Some(last) = key.last() {
+        path.set_file_name(format!("{}.rs", last.as_str()));
+    }
 
     let directory_path = path.parent().map(|p| p.to_path_buf()).unwrap_or_default();
     std::fs::create_dir_all(directory_path)?;
